@@ -16,6 +16,10 @@
 //	concurrent row group, after Reset of a used writer):
 //	every written non-null value must Check true; the stored filter bytes
 //	are compared with the model's filter of the chunk's values; every file
+//	with modular encryption as one more writer option (encrypted or signed
+//	plaintext footer, footer key only or per-column keys, of the file, of the
+//	files its row groups come from, or both; see encrypt.go) crossed with
+//	all of the above, the files being read with the keys; every file
 //	is then re-opened under several option sets (filters loaded from the
 //	header, prefetched, skipped and loaded on demand; read buffers smaller
 //	and larger than the filters; optimistic reads; async mode; reader
@@ -82,6 +86,7 @@ type c07File struct {
 	Prefetch bool         `json:"prefetch,omitempty"`
 	SrcBits  bool         `json:"src_filters,omitempty"` // copy paths: the source file has the same filters
 	DstCodec string       `json:"dst_codec,omitempty"`
+	Enc      *c07Enc      `json:"enc,omitempty"` // modular encryption of the file and/or of the files its row groups come from
 
 	// path "history": the calls made on the one destination writer, in order
 	Steps     []c07Step `json:"steps,omitempty"`
@@ -217,7 +222,7 @@ func (r c07EOFReader) ReadAt(p []byte, off int64) (int, error) {
 }
 
 // open opens data under the option set; done releases what was created.
-func (o c07Open) open(data []byte) (f *parquet.File, done func(), err error) {
+func (o c07Open) open(data []byte, extra ...parquet.FileOption) (f *parquet.File, done func(), err error) {
 	defer func() {
 		if r := recover(); r != nil {
 			err = fmt.Errorf("panic: %v", r)
@@ -241,7 +246,7 @@ func (o c07Open) open(data []byte) (f *parquet.File, done func(), err error) {
 		}
 		r = tmp
 	}
-	f, err = parquet.OpenFile(r, int64(len(data)), o.options()...)
+	f, err = parquet.OpenFile(r, int64(len(data)), append(o.options(), extra...)...)
 	if err != nil {
 		done()
 		done = func() {}
@@ -513,8 +518,42 @@ func c07Codec(name string) parquet.WriterOption {
 	return parquet.Compression(&parquet.Uncompressed)
 }
 
-func (cs *c07File) options(filters bool, codec string) []parquet.WriterOption {
+// dstOptions configures the writer of the file under test, srcOptions the
+// writers of the files its row groups come from.
+func (cs *c07File) dstOptions(codec string) []parquet.WriterOption {
+	return cs.options(true, codec, cs.Enc.dst())
+}
+
+func (cs *c07File) srcOptions() []parquet.WriterOption {
+	return cs.options(cs.SrcBits, cs.Codec, cs.Enc.src())
+}
+
+// openSource opens a source file (with its keys if it is encrypted).
+func (cs *c07File) openSource(data []byte) (*parquet.File, error) {
+	var fo []parquet.FileOption
+	if cs.Enc.src() {
+		fo = cs.Enc.fileOptions(len(cs.Cols))
+	}
+	sf, err := parquet.OpenFile(bytes.NewReader(data), int64(len(data)), fo...)
+	if err != nil {
+		return nil, fmt.Errorf("source file: %w", err)
+	}
+	return sf, nil
+}
+
+// readOptions are the options every reader of the file under test is given.
+func (cs *c07File) readOptions() []parquet.FileOption {
+	if cs.Enc.dst() {
+		return cs.Enc.fileOptions(len(cs.Cols))
+	}
+	return nil
+}
+
+func (cs *c07File) options(filters bool, codec string, encrypted bool) []parquet.WriterOption {
 	opts := []parquet.WriterOption{c07Schema(cs.Cols), c07Codec(codec)}
+	if encrypted {
+		opts = append(opts, cs.Enc.writerOption(len(cs.Cols)))
+	}
 	if cs.PageBuf > 0 {
 		opts = append(opts, parquet.PageBufferSize(cs.PageBuf))
 	}
@@ -591,13 +630,13 @@ func c07Write(cs *c07File) (out []byte, copied int64, err error) {
 	var buf bytes.Buffer
 	switch cs.Path {
 	case "rows":
-		w := parquet.NewWriter(&buf, cs.options(true, cs.Codec)...)
+		w := parquet.NewWriter(&buf, cs.dstOptions(cs.Codec)...)
 		if err := cs.writeRowsTo(w); err != nil {
 			return nil, 0, err
 		}
 		return buf.Bytes(), 0, nil
 	case "buffer":
-		w := parquet.NewWriter(&buf, cs.options(true, cs.Codec)...)
+		w := parquet.NewWriter(&buf, cs.dstOptions(cs.Codec)...)
 		bounds := append(append([]int{0}, cs.Flush...), len(cs.Rows))
 		sort.Ints(bounds)
 		for k := 0; k+1 < len(bounds); k++ {
@@ -621,19 +660,19 @@ func c07Write(cs *c07File) (out []byte, copied int64, err error) {
 	}
 	// paths that start from another file
 	var src bytes.Buffer
-	sw := parquet.NewWriter(&src, cs.options(cs.SrcBits, cs.Codec)...)
+	sw := parquet.NewWriter(&src, cs.srcOptions()...)
 	if err := cs.writeRowsTo(sw); err != nil {
 		return nil, 0, fmt.Errorf("source file: %w", err)
 	}
-	sf, err := parquet.OpenFile(bytes.NewReader(src.Bytes()), int64(src.Len()))
+	sf, err := cs.openSource(src.Bytes())
 	if err != nil {
-		return nil, 0, fmt.Errorf("source file: %w", err)
+		return nil, 0, err
 	}
 	dstCodec := cs.Codec
 	if cs.Path == "reencode" {
 		dstCodec = cs.DstCodec
 	}
-	w := parquet.NewWriter(&buf, cs.options(true, dstCodec)...)
+	w := parquet.NewWriter(&buf, cs.dstOptions(dstCodec)...)
 	before := parquet.VerifCopyPathCount()
 	switch cs.Path {
 	case "copy", "reencode":
@@ -680,7 +719,7 @@ func c07Write(cs *c07File) (out []byte, copied int64, err error) {
 // dealt in their original order (ranges overlap entirely).
 func (cs *c07File) sourceFile(lo, hi, parts, key, mix int) (*parquet.File, error) {
 	var src bytes.Buffer
-	sw := parquet.NewWriter(&src, cs.options(cs.SrcBits, cs.Codec)...)
+	sw := parquet.NewWriter(&src, cs.srcOptions()...)
 	if parts < 1 {
 		parts = 1
 	}
@@ -722,11 +761,7 @@ func (cs *c07File) sourceFile(lo, hi, parts, key, mix int) (*parquet.File, error
 	if err := sw.Close(); err != nil {
 		return nil, fmt.Errorf("source file: %w", err)
 	}
-	sf, err := parquet.OpenFile(bytes.NewReader(src.Bytes()), int64(src.Len()))
-	if err != nil {
-		return nil, fmt.Errorf("source file: %w", err)
-	}
-	return sf, nil
+	return cs.openSource(src.Bytes())
 }
 
 // writeHistory replays the steps of the case on one destination writer. Every
@@ -741,7 +776,7 @@ func (cs *c07File) writeHistory() ([]byte, int64, error) {
 	var w *parquet.Writer
 	if cs.Reset > 0 {
 		// a used writer: rows of the case went to another output first
-		w = parquet.NewWriter(&scratch, cs.options(true, dstCodec)...)
+		w = parquet.NewWriter(&scratch, cs.dstOptions(dstCodec)...)
 		k := cs.Reset
 		if k > len(cs.Rows) {
 			k = len(cs.Rows)
@@ -761,7 +796,7 @@ func (cs *c07File) writeHistory() ([]byte, int64, error) {
 		}
 		w.Reset(&buf)
 	} else {
-		w = parquet.NewWriter(&buf, cs.options(true, dstCodec)...)
+		w = parquet.NewWriter(&buf, cs.dstOptions(dstCodec)...)
 	}
 	before := parquet.VerifCopyPathCount()
 	writeRows := func(lo, hi int) error {
@@ -1002,7 +1037,7 @@ func c07Verify(rep *c07Rep, cs *c07File, data []byte, copied int64, one int) boo
 	}
 	var chunks []*c07Chunk
 	unordered := cs.unordered()
-	f, _, err := c07Open{Prefetch: cs.Prefetch}.open(data)
+	f, _, err := c07Open{Prefetch: cs.Prefetch}.open(data, cs.readOptions()...)
 	if err != nil {
 		fail("file-open-error", "the written file cannot be opened: "+err.Error())
 		return false
@@ -1141,7 +1176,9 @@ func c07Verify(rep *c07Rep, cs *c07File, data []byte, copied int64, one int) boo
 				continue
 			}
 			ch.Stored, ch.HasFilter = append([]byte(nil), raw...), true
-			if cs.Gzip || (len(raw) >= 2 && raw[0] == 0x1f && raw[1] == 0x8b && len(raw)%32 != 0) {
+			// (the filter of an encrypted chunk is decrypted and decompressed when it
+			// is loaded: it exposes the bits themselves, not the stored gzip stream)
+			if (cs.Gzip && !cs.Enc.dst()) || (len(raw) >= 2 && raw[0] == 0x1f && raw[1] == 0x8b && len(raw)%32 != 0) {
 				dec, err := parquet.Gzip.Decode(nil, raw)
 				if err != nil {
 					fail("filter-read-error", "gzip-compressed filter does not decompress: "+err.Error())
@@ -1158,6 +1195,32 @@ func c07Verify(rep *c07Rep, cs *c07File, data []byte, copied int64, one int) boo
 			if rep.record {
 				key := fmt.Sprintf("%s/%s/%s/%s", cs.Path, col.Type, col.Rep, col.Enc)
 				c.Case("file/"+key, fmt.Sprintf("%s|%d|%d", cs.key(), g, ci), len(seen) >= 2)
+				if cs.Enc.dst() {
+					// encrypted chunks by footer mode and key of the column, crossed with
+					// the write path, the page version, the column kind and deferred filters
+					own := "footer-key"
+					if cs.Enc.ownKey(ci) {
+						own = "column-key"
+					}
+					kind := "plain-pages"
+					if ch.DictEnc && ch.PlainEnc {
+						kind = "dict-fallback"
+					} else if ch.DictEnc {
+						kind = "dict-pages"
+					}
+					ver := "v2"
+					if cs.V1 {
+						ver = "v1"
+					}
+					when := "inline"
+					if cs.Deferred {
+						when = "deferred"
+					}
+					c.Case(fmt.Sprintf("enc/%s-footer/%s/%s/%s", cs.Enc.Footer, own, cs.Path, ver), fmt.Sprintf("%s|%d|%d", cs.key(), g, ci), len(seen) >= 2)
+					c.Res.Buckets["enc/pages/"+ver+"/"+kind]++
+					c.Res.Buckets[fmt.Sprintf("enc/%s-footer/filters-%s", cs.Enc.Footer, when)]++
+					c.Res.Buckets["enc/type/"+col.Type+"/"+col.Enc]++
+				}
 			}
 		}
 		off += n
@@ -1218,7 +1281,7 @@ func c07VerifyOpen(rep *c07Rep, cs *c07File, data []byte, o c07Open, chunks []*c
 			fail("read-panic", fmt.Sprintf("opened with %v: %v", o, r))
 		}
 	}()
-	f, done, err := o.open(data)
+	f, done, err := o.open(data, cs.readOptions()...)
 	if err != nil {
 		fail("file-open-error", fmt.Sprintf("the written file cannot be opened with %v: %v", o, err))
 		return false
@@ -1525,6 +1588,14 @@ func c07RunFile(rep *c07Rep, cs *c07File, one int) bool {
 			rep.c.Res.Buckets["history/chunks-copied-verbatim"] += int(copied)
 		}
 	}
+	if cs.Enc != nil && rep.record {
+		rep.c.Res.Buckets["enc/where/"+cs.Enc.Where+"/"+cs.Path]++
+		if cs.Enc.src() && !cs.Enc.dst() && copied > 0 {
+			// (ciphertext must not be spliced into a plaintext file; if it were, the
+			// predicate below fails on the copied filters and pages)
+			rep.c.Res.Buckets["enc/chunks-copied-verbatim-from-encrypted-source"] += int(copied)
+		}
+	}
 	if cs.Path == "copy" && copied > 0 && rep.record {
 		rep.c.Res.Buckets["file/chunks-copied-verbatim"] += int(copied)
 	}
@@ -1671,6 +1742,31 @@ func c07Shrink(c *core.Ctx, cs *c07File, class string) *c07File {
 			}
 		}
 	}
+	// no encryption, or its plainest form
+	if cur.Enc != nil {
+		t := cur
+		t.Enc = nil
+		if fails(&t) {
+			cur = t
+		} else {
+			for _, f := range []func(e *c07Enc){
+				func(e *c07Enc) { e.Where = "dst" },
+				func(e *c07Enc) { e.Keys = "footer" },
+				func(e *c07Enc) { e.Footer = "encrypted" },
+				func(e *c07Enc) { e.Prefix = false },
+				func(e *c07Enc) { e.Ident = false },
+				func(e *c07Enc) { e.KeyLen = 16 },
+			} {
+				t := cur
+				e := *cur.Enc
+				f(&e)
+				t.Enc = &e
+				if fails(&t) {
+					cur = t
+				}
+			}
+		}
+	}
 	// simpler configuration
 	for _, f := range []func(t *c07File){
 		func(t *c07File) { t.Flush = nil },
@@ -1680,6 +1776,8 @@ func c07Shrink(c *core.Ctx, cs *c07File, class string) *c07File {
 		func(t *c07File) { t.Prefetch = false },
 		func(t *c07File) { t.V1 = false },
 		func(t *c07File) { t.Codec = "" },
+		func(t *c07File) { t.DstCodec = "" },
+		func(t *c07File) { t.SrcBits = false },
 		func(t *c07File) { t.Path = "rows" },
 		func(t *c07File) { t.PageBuf = 0 },
 		func(t *c07File) { t.DictMax = 0 },
@@ -1901,6 +1999,9 @@ func c07GenFile(c *core.Ctx, i int) *c07File {
 		// dictionary columns fall back to PLAIN once the dictionary outgrows the limit
 		cs.DictMax = []int64{16, 64, 256, 2048}[r.Intn(4)]
 	}
+	if r.Intn(4) == 0 {
+		cs.Enc = c07GenEnc(c)
+	}
 	cs.Opens = c07GenOpens(c, false)
 	return cs
 }
@@ -2018,6 +2119,12 @@ func c07GenHistory(c *core.Ctx, i int) *c07File {
 		cs.Reset = 1 + r.Intn(n)
 		cs.ResetMode = []string{"pending", "flushed", "closed"}[r.Intn(3)]
 	}
+	if r.Intn(4) == 0 {
+		cs.Enc = c07GenEnc(c)
+		if cs.Enc.dst() {
+			c07EncNoConcurrent(cs.Steps)
+		}
+	}
 	cs.Opens = c07GenOpens(c, false)
 	return cs
 }
@@ -2059,6 +2166,12 @@ func c07GenBig(c *core.Ctx, i int) *c07File {
 	cs.Gzip = r.Intn(3) == 0
 	cs.Deferred = r.Intn(3) == 0
 	cs.SrcBits = r.Intn(2) == 0
+	if r.Intn(4) == 0 {
+		cs.Enc = c07GenEnc(c)
+		if cs.Enc.dst() {
+			c07EncNoConcurrent(cs.Steps)
+		}
+	}
 	cs.Opens = c07GenOpens(c, true)
 	return cs
 }
@@ -2585,7 +2698,7 @@ func c07Corpus() []*c07File {
 }
 
 func runC07(c *core.Ctx) {
-	c.Res.Rule = "(a) xxhash.Sum64 on inputs of every length 0..100 (two contents each) and random lengths up to 4 KiB, Sum64Uint8 on all 256 bytes, Sum64Uint16/32/64/128 on edge and random values, MultiSum64UintK against the one-value functions; (b) SplitBlockFilter Insert/InsertBulk bytes, Check and CheckSplitBlock for present and absent probes, NumSplitBlocksOf, splitBlockEncoding.Encode* on generated page data of every physical type; (c) files with one column of every physical type in a random configuration (required/optional/repeated, plain/dictionary/delta/byte-stream-split encodings, 1..32 bits per value, flba sizes 1..33 and uuid), written through WriteRows, WriteRowGroup(buffer), WriteRowGroup(file row group) on the copy and re-encode paths, MergeRowGroups concatenation and CopyRows, with explicit flushes, MaxRowsPerRowGroup, page versions, codecs, deferred and gzip-compressed filters; files produced by a HISTORY of calls on one writer over 3-5 columns: the first two steps enumerate every pair (operation leaving rows pending: WriteRows, CopyRows, ReadRowsFrom) x (Flush, WriteRows, WriteRowGroup of a buffer, of file row groups one by one, of MultiRowGroup(file row groups), of MergeRowGroups(file row groups) unsorted and sorted on a key column (source row groups with disjoint, partly or entirely overlapping key ranges; the row order of such a file is not that of the case, so the values of a chunk are those read back from it and every written value must be stored in some chunk), of MultiRowGroup(buffers), concurrent row groups begun together and committed in order, Close), followed by up to three drawn steps (the first quarter of these files is also compared with the model, the others evaluate the predicate only), with page buffers of 64 B..4 KiB so that pending rows have produced pages, MaxRowsPerRowGroup, copy or re-encode destination codec, and in a quarter of the cases a writer that first wrote rows to another output (left pending, flushed or closed) and was Reset; files of one or two columns with 1500+ rows over a domain four times larger (filters of 2..40 KiB). Every file is verified under the default options (pages read back, model filter, probes) and then re-opened under four option sets: filters loaded from the header at open, prefetched, on demand (SkipBloomFilters), and a fourth draw; each with ReadBufferSize in {default, 16, 64, 512, 1 MiB} (large files: {default, 512, 8 KiB, 1 MiB}), OptimisticRead, ReadModeAsync, SkipPageIndex, reader kind (bytes.Reader, EOF-with-last-byte ReaderAt, *os.File) and access path (ColumnChunk.BloomFilter, BloomFilterFrom(another reader), MultiRowGroup column filter) drawn independently; each must report every written value present and expose the same filter bytes. A file case is non-trivial when the chunk has at least 2 distinct values; distinct by the JSON of the case."
+	c.Res.Rule = "(a) xxhash.Sum64 on inputs of every length 0..100 (two contents each) and random lengths up to 4 KiB, Sum64Uint8 on all 256 bytes, Sum64Uint16/32/64/128 on edge and random values, MultiSum64UintK against the one-value functions; (b) SplitBlockFilter Insert/InsertBulk bytes, Check and CheckSplitBlock for present and absent probes, NumSplitBlocksOf, splitBlockEncoding.Encode* on generated page data of every physical type; (c) files with one column of every physical type in a random configuration (required/optional/repeated, plain/dictionary/delta/byte-stream-split encodings, 1..32 bits per value, flba sizes 1..33 and uuid), written through WriteRows, WriteRowGroup(buffer), WriteRowGroup(file row group) on the copy and re-encode paths, MergeRowGroups concatenation and CopyRows, with explicit flushes, MaxRowsPerRowGroup, page versions, codecs, deferred and gzip-compressed filters; files produced by a HISTORY of calls on one writer over 3-5 columns: the first two steps enumerate every pair (operation leaving rows pending: WriteRows, CopyRows, ReadRowsFrom) x (Flush, WriteRows, WriteRowGroup of a buffer, of file row groups one by one, of MultiRowGroup(file row groups), of MergeRowGroups(file row groups) unsorted and sorted on a key column (source row groups with disjoint, partly or entirely overlapping key ranges; the row order of such a file is not that of the case, so the values of a chunk are those read back from it and every written value must be stored in some chunk), of MultiRowGroup(buffers), concurrent row groups begun together and committed in order, Close), followed by up to three drawn steps (the first quarter of these files is also compared with the model, the others evaluate the predicate only), with page buffers of 64 B..4 KiB so that pending rows have produced pages, MaxRowsPerRowGroup, copy or re-encode destination codec, and in a quarter of the cases a writer that first wrote rows to another output (left pending, flushed or closed) and was Reset; files of one or two columns with 1500+ rows over a domain four times larger (filters of 2..40 KiB). ENCRYPTION is one more writer option: a quarter of the files of each of these three families is written with WithEncryption (footer encrypted or plaintext and signed; every column under the footer key, every column under its own key, or odd columns under their own key; keys of 16/24/32 bytes; with and without AAD prefix and given file identifier; the file under test, the source files of the copy / re-encode / merge / history steps, or both being encrypted) and read with WithDecryption, and a grid enumerates (write path: rows, buffer, copy, reencode, concat, copyrows, history) x (footer mode) x (key assignment) x (data page v1, v2) x (filters written with the row group, deferred to the end of the file) over 3-5 drawn columns of every encoding (one grid file in eight is also compared with the model); histories of encrypted files replace the concurrent row group (refused by Commit) by MultiRowGroup(buffers). Every file is verified under the default options (pages read back, model filter, probes) and then re-opened under four option sets: filters loaded from the header at open, prefetched, on demand (SkipBloomFilters), and a fourth draw; each with ReadBufferSize in {default, 16, 64, 512, 1 MiB} (large files: {default, 512, 8 KiB, 1 MiB}), OptimisticRead, ReadModeAsync, SkipPageIndex, reader kind (bytes.Reader, EOF-with-last-byte ReaderAt, *os.File) and access path (ColumnChunk.BloomFilter, BloomFilterFrom(another reader), MultiRowGroup column filter) drawn independently; each must report every written value present and expose the same filter bytes. A file case is non-trivial when the chunk has at least 2 distinct values; distinct by the JSON of the case."
 	// corpus first
 	for i, cs := range c07Corpus() {
 		c07FileCase(c, cs)
@@ -2622,6 +2735,17 @@ func runC07(c *core.Ctx) {
 			c.Sample(map[string]any{"kind": "file", "path": cs.Path, "cols": cs.Cols, "rows": len(cs.Rows), "steps": cs.Steps, "opens": cs.Opens})
 		}
 	}
+	// encrypted files: the grid (write path) x (footer mode) x (keys) x (page version) x (deferred filters)
+	tEnc := time.Now()
+	nEnc := c.N(c07GridSize, 3*c07GridSize)
+	for i := 0; i < nEnc; i++ {
+		cs := c07GenEncGrid(c, i)
+		c07FileCaseOpt(c, cs, i%8 != 0)
+		if i == 8 {
+			c.Sample(map[string]any{"kind": "file", "path": cs.Path, "cols": cs.Cols, "rows": len(cs.Rows), "v1": cs.V1, "deferred": cs.Deferred, "enc": cs.Enc, "opens": cs.Opens})
+		}
+	}
+	c.Note("time: %d encrypted grid files %.1fs (one in eight also compared with the model)", nEnc, time.Since(tEnc).Seconds())
 	t4 := time.Now()
 	// filters larger than the read buffer
 	nBig := c.N(30, 100)
